@@ -99,6 +99,14 @@ CHECKS = {
         assumptions=['the index jump reproduces only states a real history can reach (index continues, below the pre-emptive reset margin); the LDM window is re-initialised per frame and is therefore never jumped: its rebasing is covered by flavour F and by the thorough >4 GiB stream', '32-bit builds are out of reach'],
         coverage_extra=lambda t: dict(real_overflow_corrections=t.probes.get('zstd.overflow_correction', 0), ldm_overflow_corrections=t.probes.get('zstd.ldm_overflow_correction', 0), index_jumps=t.probes.get('zstd.index_jumped', 0), preemptive_index_resets=t.probes.get('zstd.index_too_close_reset', 0), giant_stream_mb=t.probes.get('c15.giant_stream_mb', 0)),
     ),
+    'C06': dict(
+        level='exploration',
+        batches=[dict(scenario='c06cap', flavour='P', quick=6000, thorough=200000), dict(scenario='c06cap', flavour='A', quick=1500, thorough=40000)],
+        rule='per run one (input, parameter vector, dictionary, entry point of 5: compress2 / compressCCtx / usingDict / usingCDict / single-pass stream end): destination capacity swept over ALL values 0..bound+8 when the input is <= 300 bytes (half of the runs), else over the edges {0,1,5,12,result-1,result,result+1,bound-1,bound,bound+k} plus 5 random; decompression capacity swept likewise; inspectors over 1-4 frames with a skippable frame; distinct = distinct plan signature; non-trivial = more than 10 capacities tried (probe c06.capacities_tried = total)',
+        real=REAL_COMMON, stub=['destination / source buffers: exactly sized with guard zones (poisoned under ASan)', 'independent frame walker for the inspector relations', 'allocator'],
+        assumptions=['the universal claim over adversarial INPUTS for compressBound is input generation (random, incompressible and splitter-fooling generators), not simulation: only the capacity axis is treated as a fault dimension', 'multithreaded compression is not part of this scenario'],
+        coverage_extra=lambda t: dict(capacities_tried=t.probes.get('c06.capacities_tried', 0), exhaustive_sweeps=t.probes.get('c06.exhaustive_capacity_sweeps', 0)),
+    ),
 }
 
 def default_root(tier):
